@@ -1,23 +1,26 @@
 // C35 correspondence harness (injected into package lib/utils/lru-cache by `go test -overlay`).
 //
 // inputs (fields separated by one space, numbers in hex):
-//   seq <cap> <op>...                      one cache, operations applied sequentially
-//   conc <cap> <prefill> <prog0> <prog1>...  prefill sequentially, then one goroutine per prog
-//                                          (a prog is ops joined by ',', "-" when empty)
-//   concl <cap> <prefill> <prog0> ...      the same in lockstep: a spin barrier before every call,
-//                                          so that the i-th calls of all programs run at once
-//   concg <cap> <prefill> <prog0> ...      lockstep, and the harness holds c.Lock() until all calls
-//                                          of the round are pending
-//   probe <method> <x|r>                   hold c.Lock() (x) or c.RLock() (r) in the harness and
-//                                          call the method from another goroutine
-//   ops:  g:<k>   Get(k)      p:<k>:<v>   Put(k,v)     d   dump (harness, under c.Lock())
+//
+//	seq <cap> <op>...                      one cache, operations applied sequentially
+//	conc <cap> <prefill> <prog0> <prog1>...  prefill sequentially, then one goroutine per prog
+//	                                       (a prog is ops joined by ',', "-" when empty)
+//	concl <cap> <prefill> <prog0> ...      the same in lockstep: a spin barrier before every call,
+//	                                       so that the i-th calls of all programs run at once
+//	concg <cap> <prefill> <prog0> ...      lockstep, and the harness holds c.Lock() until all calls
+//	                                       of the round are pending
+//	probe <method> <x|r>                   hold c.Lock() (x) or c.RLock() (r) in the harness and
+//	                                       call the method from another goroutine
+//	ops:  g:<k>   Get(k)      p:<k>:<v>   Put(k,v)     d   dump (harness, under c.Lock())
+//
 // observables:
-//   seq   -> one result per op:  v:<n> | u | l:<k>=<v>,...  | l:- | corrupt:<why> | panic
-//   conc  -> one record per completed call, in no particular order:
-//            <tid>/<call stamp>/<ret stamp>/<op>/<result>     stamps from one atomic counter;
-//            prefill records have tid fe, the final dump has tid ff
-//   probe -> blocked | ran:same | ran:changed   (did the call finish while the harness held the
-//            lock, and did the recency order change meanwhile)
+//
+//	seq   -> one result per op:  v:<n> | u | l:<k>=<v>,...  | l:- | corrupt:<why> | panic
+//	conc  -> one record per completed call, in no particular order:
+//	         <tid>/<call stamp>/<ret stamp>/<op>/<result>     stamps from one atomic counter;
+//	         prefill records have tid fe, the final dump has tid ff
+//	probe -> blocked | ran:same | ran:changed   (did the call finish while the harness held the
+//	         lock, and did the recency order change meanwhile)
 //
 // The conc and probe cases depend on the scheduler: their observables are histories, every one of
 // which must be linearizable (conc) / must not show a mutation under a lock held by someone else.
